@@ -36,7 +36,7 @@ class CaseBuilder:
         self.invoices.append(d); self.inv_amount.append(amount); self.inv_hash.append(h)
         return len(self.invoices) - 1
 
-    def htlc(self, inv, amt, total, expiry=None, rel=None, hash_idx=None, amount_tlv=None, forward="amt", scid=None, bolt11s=None, raw_payload=None):
+    def htlc(self, inv, amt, total, expiry=None, rel=None, hash_idx=None, amount_tlv=None, forward="amt", scid=None, bolt11s=None, raw_payload=None, raw_hash=None):
         if forward == "amt" and self.r.chance(1, 4):
             # the onion's forward_msat need not equal what the HTLC carries (skimmed upstream / malicious sender)
             forward = min(2**64 - 1, self.r.choice([amt + 1, amt * 2 + 7, max(0, amt - 1), total, 0, 2**64 - 1]))
@@ -47,7 +47,7 @@ class CaseBuilder:
         if rel is None: rel = pol[2] + self.r.below(500)
         if isinstance(amount_tlv, bytes): amount_tlv = {"hex": amount_tlv.hex()}
         e = {"e": "htlc", "_inv": inv, "_amount_tlv": amount_tlv, "_raw": raw_payload,
-             "req": request(b"", phash(h), amt, expiry, rel, self.next_id, forward=(amt if forward == "amt" else forward), total=total, scid=scid)}
+             "req": request(b"", raw_hash if raw_hash is not None else phash(h), amt, expiry, rel, self.next_id, forward=(amt if forward == "amt" else forward), total=total, scid=scid)}
         self.next_id += 1
         return e
 
@@ -191,6 +191,10 @@ def story_case(r, ending=None, npieces=None, reject=None, nhash=1, heights=True,
         if kind == "low_expiry": x = b.htlc(inv, r.choice([1000, total]), total, rel=r.choice([max(0, pol[2] - 1 - r.below(5)), 0, -1, -1 - r.below(1000), -2**31, -2**32 + 5, -2**63]))
         elif kind == "low_total": x = b.htlc(inv, 1000, max(0, need - 1 - r.below(3)))
         elif kind == "other_invoice": x = b.htlc(b.add_invoice(0, amount, ts=77), 1000, total)
+        elif kind == "near_hash":
+            # an HTLC whose payment hash is NOT the invoice's but agrees with it under weak comparisons, fully funded on its own
+            nh = near_hashes(phash(0))
+            x = b.htlc(inv, total, total, raw_hash=nh[pos % len(nh)] if r.chance(3, 4) else r.choice(nh), amount_tlv=atlv)
         else: x = b.htlc(b.add_invoice(0, None), 1000, total, amount_tlv=amount + 7)     # other amount
         hts.insert(min(pos, len(hts)), x)
     script = []
